@@ -126,6 +126,11 @@ def run(ctx: Ctx) -> Result:
         want = ((int.from_bytes(s_, 'little') - int.from_bytes(sa_, 'little') - int.from_bytes(y_, 'little')) % L).to_bytes(32, 'little')
         try: got = T.release_left_amhl_lock(wit, V.rbytes(rng, 32) + s_, y_)
         except BaseException as e: got = ('ERR:' + type(e).__name__).encode()
+        # ... and given the 65-byte form of the signature (R' || s || flag byte) it either refuses or still recovers the same scalar
+        try: got65 = T.release_left_amhl_lock(wit, V.rbytes(rng, 32) + s_ + bytes([rng.choice([1, 2, 0x80])]), y_)
+        except BaseException: got65 = want
+        if got65 != want:
+            viol('release_left_amhl_lock given the 65-byte signature form', {'adapter_witness': wit.hex(), 's': s_.hex(), 'y': y_.hex()}, 'a refusal, or ' + want.hex(), got65.hex())
         if got != want:
             viol('release_left_amhl_lock(push sa push R, R\'||s, y)', {'adapter_witness': wit.hex(), 's': s_.hex(), 'y': y_.hex()}, want.hex(), got.hex() if got[:4] != b'ERR:' else got.decode())
     # setup_amhl + adapters end to end
